@@ -516,7 +516,8 @@ def linkentry_profile(rng, rec):
     others = [k for k in range(K) if k != a]
     nid = max([o["id"] for o in rec["ops"] if isinstance(o["id"], int)] + [0]) + 1
     seq = []
-    if rng.random() < 0.5 and others:
+    if others:
+        # (an earlier request shows how this cache names its files)
         seq.append({"op": "GET", "keys": rng.sample(others, min(len(others), rng.randint(1, 2))), "dt": 10**9})
     seq.append({"op": "FOREIGN", "name": "linkentry:@k%d" % a, "size": 0, "age": 0, "dt": 10**9})
     seq.append({"op": "REOPEN", "size": None, "evict": False, "dt": 10**9})
